@@ -297,6 +297,8 @@ structure TExec where
   cmds : List Cmd
   node : Node
   asking : Bool
+  ownerThen : Option Node           -- owner of the transaction's slot when it executed
+  importThen : Option Node          -- importing node of that slot then
   deriving Repr
 
 structure TSt where
@@ -319,7 +321,10 @@ inductive TEv where
   deriving Repr
 
 /-- node `n`'s answer to a whole transaction on `keys` (EXEC-time check of
-    getNodeByQuery over all queued keys; all keys are in one slot — Put checks) -/
+    getNodeByQuery over all queued keys; all keys are in one slot — Put checks).
+    A redirect may also come earlier, while queueing, from the single-key check
+    of one queued command (`tstepSrv` admits both); the transaction executes
+    only if this EXEC-time check says so. -/
 def tanswer (sv : Srv) (n : Node) (keys : List Key) (asking : Bool) : Out :=
   match keys with
   | [] => .err
@@ -353,10 +358,13 @@ def tstepSrv (s : TSt) (n : Node) (tid : Nat) (asking : Bool) (o : Out) : Except
   | some (b, t, a) =>
     if ¬ (t.phase = .pending ∨ t.phase = .abandoned) then .error "request-after-answer"
     else if ¬ (t.node = n ∧ t.asking = asking) then .error "wrong-target"
-    else if ¬ (o = .err ∨ o = tanswer slotOf s.sv n (t.cmds.map (·.key)) asking) then .error "answer"
+    else if ¬ (o = .err ∨ (o = .exec ∧ tanswer slotOf s.sv n (t.cmds.map (·.key)) asking = .exec)
+               ∨ (o ≠ .exec ∧ ∃ c ∈ t.cmds, o = answer slotOf s.sv n c.key asking)) then .error "answer"
     else match o with
       | .exec => .ok { s with txns := b ++ { t with phase := .committed } :: a,
-                              log := s.log ++ [⟨tid, t.cmds, n, asking⟩] }
+                              log := s.log ++ [⟨tid, t.cmds, n, asking,
+                                (t.cmds.head?).map (fun c => s.sv.owner (slotOf c.key)),
+                                (t.cmds.head?).bind (fun c => s.sv.mig (slotOf c.key))⟩] }
       | .moved d =>
         if t.phase = .pending then .ok { s with txns := b ++ { t with node := d, asking := false } :: a }
         else .ok { s with txns := b ++ { t with phase := .dead } :: a }
